@@ -335,8 +335,17 @@ def run(rep, model, tier, seed):
     rep.rule = rep.rule % nmax
     plan = ([1, 2, 3, 4, 6, 6, 7, 7, 7, 7] if tier == "quick" else
             [1, 2, 3, 4, 5] * 6 + [6, 7, 8] * 25 + [9, 10, 11, 12] * 10)
+    broke = False
     for i, n in enumerate(plan):
-        run_scenario(rep, model, Scenario(common.rng(seed, "c17/%s/%d" % (tier, i)), n, tier), "random")
+        before = len(rep.disagreements)
+        v = run_scenario(rep, model, Scenario(common.rng(seed, "c17/%s/%d" % (tier, i)), n, tier), "random")
+        broke = broke or (len(rep.disagreements) > before and not v)
+    if broke and not any(d["key"] for d in rep.disagreements):
+        # the model no longer reproduces the code: look for a run on which the property itself fails
+        for i in range(40):
+            n = [6, 7, 8, 9, 7, 8][i % 6]
+            if run_scenario(rep, model, Scenario(common.rng(seed, "c17/hunt/%d" % i), n, tier), "hunt"):
+                break
     rep.extra["also_sampled_only"] = True
 
 
